@@ -101,7 +101,8 @@ def Op.keeps (s : String) : Op → Bool
   | op => !op.ofSess s
 
 theorem planStmt_sel (cat : Catalog) (c j : Nat) (v : View) (t : String) (p : Option Pred) :
-    (planStmt cat c j v (.sel t p)).effs = [] ∧ planStmt cat c j v (.sel t p) = planStmt cat 0 0 v (.sel t p) := by
+    (planStmt none cat c j v (.sel t p)).effs = [] ∧
+      planStmt none cat c j v (.sel t p) = planStmt none cat 0 0 v (.sel t p) := by
   simp only [planStmt]
   split
   · simp
@@ -116,12 +117,21 @@ theorem spec_stmt_sel (cat : Catalog) (c : Nat) (a : Spec.ATxn) (t : String) (p 
   · rw [(planStmt_sel cat c 0 a.view t p).1]
     cases a; simp
 
+theorem spec_commitC_cat (α : Spec.State) (a : Spec.ATxn) : (α.commitC a).1.cat = α.cat := by
+  unfold Spec.State.commitC
+  split
+  · split
+    · rfl
+    · unfold Spec.State.commitTxn; split <;> rfl
+  · rfl
+
 theorem spec_step_cat (α : Spec.State) (op : Op) : (Spec.step α op).1.cat = α.cat := by
   unfold Spec.step
   cases op <;> simp only [Spec.stepCore]
   · rename_i s
-    cases lookup s α.sessions <;> simp [Spec.State.commitTxn]
-    split <;> rfl
+    cases lookup s α.sessions
+    · rfl
+    · exact spec_commitC_cat α _
   · rename_i s
     cases lookup s α.sessions <;> rfl
   · rename_i s
@@ -131,11 +141,11 @@ theorem spec_step_cat (α : Spec.State) (op : Op) : (Spec.step α op).1.cat = α
   · rename_i st
     split
     · rfl
-    · simp [Spec.State.commitTxn]; split <;> rfl
+    · exact spec_commitC_cat α _
   · rename_i sts
     split
     · rfl
-    · simp [Spec.State.commitTxn]; split <;> rfl
+    · exact spec_commitC_cat α _
 
 theorem keeps_session (α : Spec.State) (s : String) (op : Op) (h : op.keeps s = true) :
     lookup s (Spec.step α op).1.sessions = lookup s α.sessions := by
@@ -154,8 +164,8 @@ theorem keeps_session (α : Spec.State) (s : String) (op : Op) (h : op.keeps s =
     cases lookup s' α.sessions with
     | none => rfl
     | some a =>
-      show lookup s (erase s' (α.commitTxn a).1.sessions) = _
-      rw [spec_commit_sessions, lookup_erase_if]; simp [hne]
+      show lookup s (erase s' (α.commitC a).1.sessions) = _
+      rw [spec_commitC_sessions, lookup_erase_if]; simp [hne]
   | rollback s' =>
     have hne : s ≠ s' := by
       simp [Op.keeps, Op.ofSess] at h; exact fun e => h e.symm
@@ -194,14 +204,14 @@ theorem keeps_session (α : Spec.State) (s : String) (op : Op) (h : op.keeps s =
     simp only [Spec.stepCore]
     split
     · rfl
-    · show lookup s (α.commitTxn _).1.sessions = _
-      rw [spec_commit_sessions]
+    · show lookup s (α.commitC _).1.sessions = _
+      rw [spec_commitC_sessions]
   | batch sts =>
     simp only [Spec.stepCore]
     split
     · rfl
-    · show lookup s (α.commitTxn _).1.sessions = _
-      rw [spec_commit_sessions]
+    · show lookup s (α.commitC _).1.sessions = _
+      rw [spec_commitC_sessions]
   | tick => rfl
   | nop => rfl
 
@@ -219,7 +229,7 @@ theorem spec_read_out (α : Spec.State) (s t : String) (p : Option Pred) :
     (Spec.step α (.exec s (.sel t p))).2 =
       match lookup s α.sessions with
       | none => .noSession
-      | some a => .stmt (planStmt α.cat 0 0 a.view (.sel t p)).out := by
+      | some a => .stmt (planStmt none α.cat 0 0 a.view (.sel t p)).out := by
   unfold Spec.step
   simp only [Spec.stepCore]
   cases lookup s α.sessions with
@@ -276,17 +286,45 @@ structure EqExcept (s : String) (α1 α2 : Spec.State) : Prop where
   others : ∀ n, n ≠ s → lookup n α1.sessions = lookup n α2.sessions
   gone : lookup s α2.sessions = none
 
-theorem spec_commit_congr (α1 α2 : Spec.State) (a : Spec.ATxn) (hc : α1.committed = α2.committed)
-    (hl : α1.log = α2.log) :
-    (α1.commitTxn a).2 = (α2.commitTxn a).2 ∧ (α1.commitTxn a).1.committed = (α2.commitTxn a).1.committed ∧
-    (α1.commitTxn a).1.log = (α2.commitTxn a).1.log ∧
-    (α1.commitTxn a).1.cat = α1.cat ∧ (α2.commitTxn a).1.cat = α2.cat ∧
-    (α1.commitTxn a).1.clock = α1.clock ∧ (α2.commitTxn a).1.clock = α2.clock := by
-  unfold Spec.State.commitTxn
-  rw [hl]
+theorem spec_commitC_clock (α : Spec.State) (a : Spec.ATxn) : (α.commitC a).1.clock = α.clock := by
+  unfold Spec.State.commitC
   split
-  · exact ⟨rfl, hc, hl, rfl, rfl, rfl, rfl⟩
-  · simp [hc]
+  · split
+    · rfl
+    · unfold Spec.State.commitTxn; split <;> rfl
+  · rfl
+
+theorem spec_commit_congr (α1 α2 : Spec.State) (a : Spec.ATxn) (hcat : α1.cat = α2.cat)
+    (hc : α1.committed = α2.committed) (hl : α1.log = α2.log) :
+    (α1.commitC a).2 = (α2.commitC a).2 ∧ (α1.commitC a).1.committed = (α2.commitC a).1.committed ∧
+    (α1.commitC a).1.log = (α2.commitC a).1.log ∧
+    (α1.commitC a).1.cat = α1.cat ∧ (α2.commitC a).1.cat = α2.cat ∧
+    (α1.commitC a).1.clock = α1.clock ∧ (α2.commitC a).1.clock = α2.clock := by
+  have h0 : (α1.commitTxn a).2 = (α2.commitTxn a).2 ∧ (α1.commitTxn a).1.committed = (α2.commitTxn a).1.committed ∧
+      (α1.commitTxn a).1.log = (α2.commitTxn a).1.log := by
+    unfold Spec.State.commitTxn
+    rw [hl]
+    split
+    · exact ⟨rfl, hc, hl⟩
+    · simp [hc]
+  obtain ⟨q1, q2, q3⟩ := h0
+  refine ⟨?_, ?_, ?_, spec_commitC_cat α1 a, spec_commitC_cat α2 a, spec_commitC_clock α1 a, spec_commitC_clock α2 a⟩
+  · unfold Spec.State.commitC; rw [q1, q2, hcat]
+    split
+    · split <;> rfl
+    · rfl
+  · unfold Spec.State.commitC; rw [q1, q2, hcat]
+    split
+    · split
+      · exact hc
+      · exact q2
+    · exact hc
+  · unfold Spec.State.commitC; rw [q1, q2, hcat]
+    split
+    · split
+      · exact hl
+      · exact q3
+    · exact hl
 
 /-- an operation of the erased session changes nothing but that session -/
 theorem erase_own (s : String) (α1 α2 : Spec.State) (h : EqExcept s α1 α2) (op : Op) (hof : op.ofSess s = true)
@@ -392,15 +430,15 @@ theorem erase_other (s : String) (α1 α2 : Spec.State) (h : EqExcept s α1 α2)
       rw [← hl]
       dsimp only
       obtain ⟨q1, q2, q3, q4, q5, q6, q7⟩ :=
-        spec_commit_congr ⟨c1, m1, l1, s1, k1⟩ ⟨c1, m1, l1, s2, k1⟩ a rfl rfl
-      obtain ⟨g1, g2⟩ := upd n none (erase n (Spec.State.commitTxn ⟨c1, m1, l1, s1, k1⟩ a).1.sessions)
-        (erase n (Spec.State.commitTxn ⟨c1, m1, l1, s2, k1⟩ a).1.sessions) hn
-        (fun m => by rw [spec_commit_sessions, lookup_erase_if])
-        (fun m => by rw [spec_commit_sessions, lookup_erase_if])
+        spec_commit_congr ⟨c1, m1, l1, s1, k1⟩ ⟨c1, m1, l1, s2, k1⟩ a rfl rfl rfl
+      obtain ⟨g1, g2⟩ := upd n none (erase n (Spec.State.commitC ⟨c1, m1, l1, s1, k1⟩ a).1.sessions)
+        (erase n (Spec.State.commitC ⟨c1, m1, l1, s2, k1⟩ a).1.sessions) hn
+        (fun m => by rw [spec_commitC_sessions, lookup_erase_if])
+        (fun m => by rw [spec_commitC_sessions, lookup_erase_if])
       refine ⟨by rw [q1], ⟨?_, q2, q3, ?_, g1, g2⟩⟩
-      · show (Spec.State.commitTxn _ a).1.cat = (Spec.State.commitTxn _ a).1.cat
+      · show (Spec.State.commitC _ a).1.cat = (Spec.State.commitC _ a).1.cat
         rw [q4, q5]
-      · show (Spec.State.commitTxn _ a).1.clock + 1 = (Spec.State.commitTxn _ a).1.clock + 1
+      · show (Spec.State.commitC _ a).1.clock + 1 = (Spec.State.commitC _ a).1.clock + 1
         rw [q6, q7]
   | rollback n =>
     have hn : n ≠ s := by simpa [Op.ofSess] using hof
@@ -458,17 +496,17 @@ theorem erase_other (s : String) (α1 α2 : Spec.State) (h : EqExcept s α1 α2)
     · dsimp only
       obtain ⟨q1, q2, q3, q4, q5, q6, q7⟩ :=
         spec_commit_congr ⟨c1, m1, l1, s1, k1⟩ ⟨c1, m1, l1, s2, k1⟩
-          (Spec.stmt c1 k1 (Spec.State.beginTxn ⟨c1, m1, l1, s2, k1⟩) 0 st).1 rfl rfl
+          (Spec.stmt c1 k1 (Spec.State.beginTxn ⟨c1, m1, l1, s2, k1⟩) 0 st).1 rfl rfl rfl
       refine ⟨by rw [q1], ⟨?_, q2, q3, ?_, ?_, ?_⟩⟩
-      · show (Spec.State.commitTxn _ _).1.cat = (Spec.State.commitTxn _ _).1.cat
+      · show (Spec.State.commitC _ _).1.cat = (Spec.State.commitC _ _).1.cat
         rw [q4, q5]
-      · show (Spec.State.commitTxn _ _).1.clock + 1 = (Spec.State.commitTxn _ _).1.clock + 1
+      · show (Spec.State.commitC _ _).1.clock + 1 = (Spec.State.commitC _ _).1.clock + 1
         rw [q6, q7]
       · intro m hm
-        show lookup m (Spec.State.commitTxn _ _).1.sessions = lookup m (Spec.State.commitTxn _ _).1.sessions
-        rw [spec_commit_sessions, spec_commit_sessions]; exact hoth m hm
-      · show lookup s (Spec.State.commitTxn _ _).1.sessions = none
-        rw [spec_commit_sessions]; exact hgone
+        show lookup m (Spec.State.commitC _ _).1.sessions = lookup m (Spec.State.commitC _ _).1.sessions
+        rw [spec_commitC_sessions, spec_commitC_sessions]; exact hoth m hm
+      · show lookup s (Spec.State.commitC _ _).1.sessions = none
+        rw [spec_commitC_sessions]; exact hgone
   | batch sts =>
     simp only [Spec.stepCore]
     have hb : Spec.State.beginTxn ⟨c1, m1, l1, s1, k1⟩ = Spec.State.beginTxn ⟨c1, m1, l1, s2, k1⟩ := rfl
@@ -478,17 +516,17 @@ theorem erase_other (s : String) (α1 α2 : Spec.State) (h : EqExcept s α1 α2)
     · rename_i a' outs heq
       dsimp only
       obtain ⟨q1, q2, q3, q4, q5, q6, q7⟩ :=
-        spec_commit_congr ⟨c1, m1, l1, s1, k1⟩ ⟨c1, m1, l1, s2, k1⟩ a' rfl rfl
+        spec_commit_congr ⟨c1, m1, l1, s1, k1⟩ ⟨c1, m1, l1, s2, k1⟩ a' rfl rfl rfl
       refine ⟨by rw [q1], ⟨?_, q2, q3, ?_, ?_, ?_⟩⟩
-      · show (Spec.State.commitTxn _ _).1.cat = (Spec.State.commitTxn _ _).1.cat
+      · show (Spec.State.commitC _ _).1.cat = (Spec.State.commitC _ _).1.cat
         rw [q4, q5]
-      · show (Spec.State.commitTxn _ _).1.clock + 1 = (Spec.State.commitTxn _ _).1.clock + 1
+      · show (Spec.State.commitC _ _).1.clock + 1 = (Spec.State.commitC _ _).1.clock + 1
         rw [q6, q7]
       · intro m hm
-        show lookup m (Spec.State.commitTxn _ _).1.sessions = lookup m (Spec.State.commitTxn _ _).1.sessions
-        rw [spec_commit_sessions, spec_commit_sessions]; exact hoth m hm
-      · show lookup s (Spec.State.commitTxn _ _).1.sessions = none
-        rw [spec_commit_sessions]; exact hgone
+        show lookup m (Spec.State.commitC _ _).1.sessions = lookup m (Spec.State.commitC _ _).1.sessions
+        rw [spec_commitC_sessions, spec_commitC_sessions]; exact hoth m hm
+      · show lookup s (Spec.State.commitC _ _).1.sessions = none
+        rw [spec_commitC_sessions]; exact hgone
   | tick => exact ⟨rfl, ⟨rfl, rfl, rfl, rfl, hoth, hgone⟩⟩
   | nop => exact ⟨rfl, ⟨rfl, rfl, rfl, rfl, hoth, hgone⟩⟩
 
